@@ -2,6 +2,7 @@ import Proofs.C03Thm
 import Proofs.C03Cas
 import Proofs.C03P
 import Proofs.C03PChange
+import Proofs.C03X
 /-!
 # C03 — ring state merge is a CRDT (property theorems)
 
@@ -26,6 +27,20 @@ resolution (`resolve`) is dead code in all instance-ring theorems of this file
 (`conflict_resolution_dead_in_universe`); resolution is C05's subject.
 
 "Same content" is equality of the `get?` view (a Go map has no order), for every key.
+
+## proviso → witness that it is needed (all proved below by evaluation of the model)
+
+| proviso                                              | witness theorem                                  |
+|------------------------------------------------------|--------------------------------------------------|
+| gossip mode (not local CAS)                          | `cas_breaks_comm`                                |
+| timestamps ≥ 1                                       | `merge_comm_fails_at_zero`                       |
+| normalised RECEIVER                                  | `merge_comm_fails_on_unnormalised_receiver`      |
+| coherent: one content per (id, ts, tombstone-ness)   | `merge_comm_fails_on_incoherent_contents`, `merge_converge_fails_on_incoherent_contents` |
+| clash-free tokens, over ALL time                     | `merge_diverges_on_token_handover`, `merge_diverges_on_token_clash` |
+| local CAS: clock not behind the removed entries      | `cas_change_insufficient_when_clock_behind`      |
+| partition ring: `Coherent a b` (commutativity)       | `pmerge_comm_fails_without_coherence`            |
+| partition ring: owner timestamps ≥ 1 (`WF`)          | `pmerge_comm_fails_at_owner_ts_zero`             |
+| GC vs merge: tombstones must not be collected early  | `gc_does_not_commute_with_merge` (resurrection)  |
 -/
 namespace PC03
 open Ring C03 PfC03
@@ -139,6 +154,21 @@ theorem merge_comm_fails_on_unnormalised_receiver :
     get? (mergeState [{ id := "a", ts := 1, tokens := [5, 1] }] []) "a" ≠
     get? (mergeState [] [{ id := "a", ts := 1, tokens := [5, 1] }]) "a" := by decide
 
+/-- COHERENCE is needed: two replicas holding the same id at the same timestamp with different content
+(here: different address; same state, no tokens, all normalised, ts ≥ 1) each keep their own -/
+theorem merge_comm_fails_on_incoherent_contents :
+    get? (mergeState [{ id := "a", ts := 1, addr := "x" }] [{ id := "a", ts := 1, addr := "y" }]) "a" ≠
+    get? (mergeState [{ id := "a", ts := 1, addr := "y" }] [{ id := "a", ts := 1, addr := "x" }]) "a" := by decide
+
+/-- … and the divergence is permanent: the same two updates delivered in the two orders leave two
+replicas that differ, and re-delivering either update changes neither -/
+theorem merge_converge_fails_on_incoherent_contents :
+    let x : Desc := [{ id := "a", ts := 1, addr := "x" }]
+    let y : Desc := [{ id := "a", ts := 1, addr := "y" }]
+    [x, y].foldl mergeState [] ≠ [y, x].foldl mergeState [] ∧
+    mergeState ([x, y].foldl mergeState []) y = [x, y].foldl mergeState [] ∧
+    mergeState ([y, x].foldl mergeState []) x = [y, x].foldl mergeState [] := by decide
+
 /-- a local CAS whose clock is behind the entry it removes stamps a tombstone that no replica
 holding the pre-state accepts: the change is then NOT sufficient -/
 theorem cas_change_insufficient_when_clock_behind :
@@ -208,6 +238,107 @@ theorem merge_diverges_on_token_clash :
         mergeState []) "b").map (·.tokens) = some [] ∧
     (get? ([[{ id := "a", ts := 1, tokens := [7] }], [{ id := "a", ts := 3 }], [{ id := "b", ts := 2, tokens := [7] }]].foldl
         mergeState []) "b").map (·.tokens) = some [7] := by decide
+
+/-! ### `RemoveTombstones(limit)`, `MergeContent()`, `Clone()` — for ALL descriptors, no provisos
+
+`removeTombstones (some l)` deletes the LEFT entries with `ts < l`; `none` is the zero time (all LEFT
+entries). A limit `time.Unix(sec, nsec)` corresponds to `l = limitOf sec nsec` (`limitOf_spec`).
+`tombCounts` are the two counters the Go function returns: (LEFT entries kept, LEFT entries removed). -/
+
+/-- `time.Unix(ts,0).Before(time.Unix(sec,nsec))`, i.e. ts·10⁹ < sec·10⁹ + nsec, for 0 ≤ nsec < 10⁹ -/
+theorem limitOf_spec (ts sec : Int) (nsec : Nat) (h : nsec < 1000000000) :
+    ts < limitOf sec nsec ↔ ts * 1000000000 < sec * 1000000000 + nsec := by
+  unfold limitOf; split <;> omega
+
+/-- a second pass with the same limit removes nothing … -/
+theorem gc_idem (l : Option Int) (d : Desc) : removeTombstones l (removeTombstones l d) = removeTombstones l d :=
+  rt_idem l d
+
+/-- … and reports (same total, 0 removed) -/
+theorem gc_counts_second_pass (l : Option Int) (d : Desc) :
+    tombCounts l (removeTombstones l d) = ((tombCounts l d).1, 0) := counts_second l d
+
+/-- monotone in the limit: collecting with an earlier limit first does not change what a later limit leaves … -/
+theorem gc_mono {l l' : Int} (h : l ≤ l') (d : Desc) :
+    removeTombstones (some l') (removeTombstones (some l) d) = removeTombstones (some l') d := rt_mono h d
+
+/-- … everything a later limit keeps, an earlier limit keeps … -/
+theorem gc_mono_mem {l l' : Int} (h : l ≤ l') {d : Desc} {x : Inst} (hx : x ∈ removeTombstones (some l') d) :
+    x ∈ removeTombstones (some l) d := by
+  rw [mem_rt] at hx ⊢
+  refine ⟨hx.1, ?_⟩
+  cases ht : isTomb (some l) x
+  · rfl
+  · rw [isTomb_mono h x ht] at hx; exact absurd hx.2 (by decide)
+
+/-- … and the zero limit is the top: it absorbs any earlier collection -/
+theorem gc_zero_absorbs (l : Option Int) (d : Desc) :
+    removeTombstones none (removeTombstones l d) = removeTombstones none d := rt_none_absorbs l d
+
+/-- an entry that has not LEFT is never removed, whatever the limit -/
+theorem gc_keeps_live (l : Option Int) {d : Desc} {x : Inst} (hx : x ∈ d) (hs : x.state ≠ .LEFT) :
+    x ∈ removeTombstones l d := rt_keeps_live l hx hs
+
+/-- nothing is added or altered, and what disappears is a LEFT entry older than the limit -/
+theorem gc_removes_only_expired_tombstones (l : Option Int) {d : Desc} {x : Inst} :
+    (x ∈ removeTombstones l d → x ∈ d) ∧
+    (x ∈ d → x ∉ removeTombstones l d → x.state = .LEFT ∧ (∀ lim, l = some lim → x.ts < lim)) := by
+  refine ⟨fun h => (mem_rt.mp h).1, fun hx hn => ?_⟩
+  have h := rt_removed_is_tomb l hx hn
+  refine ⟨h.1, fun lim hl => ?_⟩
+  subst hl
+  have := h.2
+  simp only [isTomb, Bool.and_eq_true, decide_eq_true_eq] at this
+  exact this.2
+
+/-- per key (unique ids): the entry stays unless it is an expired tombstone -/
+theorem gc_view (l : Option Int) {d : Desc} (hn : (ids d).Nodup) (k : String) :
+    get? (removeTombstones l d) k = (get? d k).filter (fun i => !isTomb l i) := get?_rt l hn k
+
+/-- the counters: `removed` is the number of entries that disappeared, `total` the number of LEFT
+entries still there, and together they are the LEFT entries of the input -/
+theorem gc_counts (l : Option Int) (d : Desc) :
+    (tombCounts l d).2 + (removeTombstones l d).length = d.length ∧
+    (tombCounts l d).1 = ((removeTombstones l d).filter (fun i => i.state == .LEFT)).length ∧
+    (tombCounts l d).1 + (tombCounts l d).2 = (d.filter (fun i => i.state == .LEFT)).length :=
+  ⟨counts_removed l d, counts_total l d, counts_left l d⟩
+
+/-- `MergeContent` of a collected descriptor is a sub-list of the original's -/
+theorem gc_merge_content_sublist (l : Option Int) (d : Desc) :
+    (mergeContent (removeTombstones l d)).Sublist (mergeContent d) := ids_rt_sublist l d
+
+/-- `Clone` then `Merge` of anything is `Merge` on the original (state and change, every mode) -/
+theorem clone_then_merge (cas : Bool) (now : Int) (a b : Desc) :
+    merge cas now (clone a) b = merge cas now a b ∧ mergeContent (clone a) = mergeContent a := ⟨rfl, rfl⟩
+
+/-- collecting tombstones does NOT commute with merging — collected too early, a tombstone lets the
+entry it deleted come back (this is why tombstones are kept for `LeftIngestersTimeout`; C04's subject):
+`a` holds the removal of "i" at ts 2, `b` still the live entry at ts 1 -/
+theorem gc_does_not_commute_with_merge :
+    let a : Desc := [{ id := "i", ts := 2, state := .LEFT }]
+    let b : Desc := [{ id := "i", ts := 1, tokens := [3] }]
+    get? (removeTombstones none (mergeState a b)) "i" = none ∧
+    get? (mergeState (removeTombstones none a) (removeTombstones none b)) "i" = some { id := "i", ts := 1, tokens := [3] } := by
+  decide
+
+/-- it does commute, per key, where no entry of either side is collected (full statement with the
+weakest guard — "whenever the last-writer-wins winner is collected, so is the loser" — NOT proved) -/
+theorem gc_commutes_with_merge_partial (l : Option Int) (a b : Desc)
+    (ha : ∀ x ∈ a, isTomb l x = false) (hb : ∀ x ∈ b, isTomb l x = false) :
+    mergeState (removeTombstones l a) (removeTombstones l b) = mergeState a b := by
+  have e : ∀ d : Desc, (∀ x ∈ d, isTomb l x = false) → removeTombstones l d = d := by
+    intro d hd; rw [rt_eq]; exact List.filter_eq_self.mpr (fun x hx => by simp [hd x hx])
+  rw [e a ha, e b hb]
+
+-- non-vacuity: limits around a tombstone at ts 3 (sub-second limit 3s+1ns removes it, 3s+0ns keeps it)
+example : removeTombstones (some (limitOf 3 0)) [{ id := "a", ts := 3, state := .LEFT }, { id := "b", ts := 1 }] =
+    [{ id := "a", ts := 3, state := .LEFT }, { id := "b", ts := 1 }] := by decide
+example : removeTombstones (some (limitOf 3 1)) [{ id := "a", ts := 3, state := .LEFT }, { id := "b", ts := 1 }] =
+    [{ id := "b", ts := 1 }] := by decide
+example : tombCounts (some 3) [{ id := "a", ts := 3, state := .LEFT }, { id := "b", ts := 1, state := .LEFT }, { id := "c", ts := 1 }] = (1, 1) := by decide
+example : (2 : Int) ≤ 4 ∧ removeTombstones (some 2) [{ id := "a", ts := 3, state := .LEFT }, { id := "b", ts := 1, state := .LEFT }] ≠
+    removeTombstones (some 4) [{ id := "a", ts := 3, state := .LEFT }, { id := "b", ts := 1, state := .LEFT }] := by decide
+example : ∀ x ∈ ([{ id := "a", ts := 3, state := .LEFT }, { id := "b", ts := 1 }] : Desc), isTomb (some 3) x = false := by decide
 
 /-! ### Partition ring (`PartitionRingDesc.mergeWithTime`, model `Model/C03P.lean`)
 
@@ -281,6 +412,22 @@ theorem pno_change_iff (a b : C03P.PDesc) (ha : PfC03P.WF a) (hb : PfC03P.WF b) 
           PfC03P.srk (PfC03P.sreg o) ≤ PfC03P.srk (PfC03P.sreg t) ∧ PfC03P.lrk (PfC03P.lreg o) ≤ PfC03P.lrk (PfC03P.lreg t)) ∧
       (∀ k, PfC03P.orkO (C03P.getO b.owners k) ≤ PfC03P.orkO (C03P.getO a.owners k)) :=
   PfC03P.no_change_iff a b ha hb
+
+/-- `Coherent` is needed for `pmerge_comm`: two well-formed partition rings in which owner "o" has, at the
+same timestamp, two different contents (owned partition 1 vs 2) each keep their own -/
+theorem pmerge_comm_fails_without_coherence :
+    let a : C03P.PDesc := { parts := [], owners := [{ id := "o", part := 1, state := 1, ts := 4 }] }
+    let b : C03P.PDesc := { parts := [], owners := [{ id := "o", part := 2, state := 1, ts := 4 }] }
+    PfC03P.WF a ∧ PfC03P.WF b ∧
+    C03P.getO (C03P.mergeState a b).owners "o" ≠ C03P.getO (C03P.mergeState b a).owners "o" :=
+  ⟨⟨by decide, by decide, by decide⟩, ⟨by decide, by decide, by decide⟩, by decide⟩
+
+/-- `WF`'s "owner timestamps ≥ 1" is needed: an owner at timestamp 0 is kept by the replica that has it
+and never accepted by one that lacks it -/
+theorem pmerge_comm_fails_at_owner_ts_zero :
+    let a : C03P.PDesc := { parts := [], owners := [{ id := "o", part := 1, state := 1, ts := 0 }] }
+    let b : C03P.PDesc := { parts := [], owners := [] }
+    C03P.getO (C03P.mergeState a b).owners "o" ≠ C03P.getO (C03P.mergeState b a).owners "o" := by decide
 
 /-! #### non-vacuity: two DIFFERENT coherent well-formed partition rings with two partitions -/
 
